@@ -28,6 +28,50 @@ REVIEWED_CAST = {
 }
 
 
+def reviewed_premises(ctx, rule):
+    """The reviewed cast entries for encode_with_dist_header_multi rest on two facts about that function; they are
+    re-established from the MIR on every run, so that an edit which voids a premise voids the review."""
+    from ..ranges import canon
+    from ..families import bodies_of_fn
+    P = ctx.P
+    W = ENC + 'encode_with_dist_header_multi'
+    WB = P.B(W)
+    if WB is None:
+        return
+    # premise 1: `atom_set.len() > 255` leads to an Err(TooManyAtoms) return
+    ok1 = False
+    for bb in sorted(WB.live_blocks()):
+        sb = WB.switch_bool_edges(bb)
+        if not sb or sb[0][0] != 'bin':
+            continue
+        rv = sb[0][2]
+        if rv['op'] == 'Gt' and canon(WB, rv['b']) == ('const', 255) and 'len' in str(canon(WB, rv['a'])) and 'HashSet' in str(canon(WB, rv['a'])) + str(WB.origin(rv['a'])):
+            reg = WB.reachable(sb[1])
+            if any(s2['k'] == '=' and s2['rv']['k'] == 'agg' and s2['rv'].get('var') == 'TooManyAtoms' for x in reg for s2 in WB.blocks[x]['s']):
+                ok1 = True
+    if ok1:
+        ctx.ok(rule, 'premise:atom-count<=255', '`atom_set.len() > 255` returns Err(TooManyAtoms) before any count or index is narrowed')
+    else:
+        ctx.bad(rule, 'premise:atom-count<=255', 'the guard `atom_set.len() > 255 -> Err(TooManyAtoms)` that the reviewed u8 casts of the atom count / positions rely on was not found',
+                ctx.where(WB), key='PREMISE:%s:atom-count-guard' % W)
+    # premise 2: long_atoms is `any(|a| a.name.len() > 255)` with len() the BYTE length of the name
+    ok2, seen_any = False, False
+    for CB in bodies_of_fn(P, W):
+        if CB.b['kind'] != 'Closure':
+            continue
+        for bb, j, st in CB.stmts():
+            if st['k'] == '=' and st['rv']['k'] == 'bin' and st['rv']['op'] == 'Gt' and canon(CB, st['rv']['b']) == ('const', 255):
+                seen_any = True
+                a = canon(CB, st['rv']['a'])
+                if a[0] == 'len' and 'name' in str(a):
+                    ok2 = True
+    if ok2:
+        ctx.ok(rule, 'premise:long_atoms-is-byte-length', 'long_atoms = any(|a| a.name.len() > 255): the one-byte length form is used only when every name is at most 255 bytes')
+    else:
+        ctx.bad(rule, 'premise:long_atoms-is-byte-length', 'the switch to two-byte atom lengths is not decided by the byte length of the names (`a.name.len() > 255`)%s: a name of more than 255 bytes '
+                'can reach the one-byte length cast' % (' but by another measure' if seen_any else ''), ctx.where(WB), key='PREMISE:%s:long-atoms-byte-length' % W)
+
+
 def run(ctx):
     P = ctx.P
     spec = load_spec()
@@ -153,6 +197,7 @@ def run(ctx):
     ctx.rule('C01.3-no-truncation', 'every length/arity/count written with a narrower width in the encoder is range-guarded or try_from-ed', floor=8)
     for fn in sorted(p for p in ctx.F.bodies if p.startswith(ENC) and ctx.F.bodies[p]['kind'] in ('Fn', 'Closure')):
         check_casts(ctx, P.B(fn), 'C01.3-no-truncation', include_float=False, reviewed=REVIEWED_CAST)
+    reviewed_premises(ctx, 'C01.3-no-truncation')
 
     # ---------------- clause 4: integers written as nested terms ----------------------------------------
     # A field written with encode_integer() is a nested term: beyond the i32 range it is a SMALL_BIG_EXT and the
